@@ -34,6 +34,49 @@ const APIS: &[&str] = &[
     "registry_write_json", "registry_call_json", "batch_json_with_timeout", "noreply",
 ];
 
+/// typed-slice entry points (blocking and async client only)
+const SLICE_APIS: &[&str] = &["call_typed_slice", "call_typed_slice_with_timeout", "call_typed_slice_aligned", "call_typed_slice_aligned_with_timeout"];
+
+/// Entry points of the three clients that put no request frame on the wire (or are driven by another family).
+const NO_REQUEST: &[&str] = &["connect", "connect_with_limits", "set_write_timeout", "limits", "subscribe_notifies", "unsubscribe_notifies"];
+/// Entry points driven by `Op` variants other than `Api`.
+const DRIVEN_BY_OPS: &[&str] = &["call_with_formats", "notify_with_formats", "call_json", "notify_json", "call_message", "batch_json", "forward_message", "forward_message_with_timeout"];
+
+/// `pub fn` / `pub async fn` names in the non-test part of a client source file of the repository under test.
+fn source_entry_points(file: &str) -> Vec<String> {
+    let repo = std::env::var("VERIF_REPO").unwrap_or_else(|_| "/repo".into());
+    let text = std::fs::read_to_string(std::path::Path::new(&repo).join("src").join(file)).unwrap_or_default();
+    let text = text.split("#[cfg(test)]").next().unwrap_or("").to_string();
+    let mut names = Vec::new();
+    for line in text.lines() {
+        let t = line.trim_start();
+        for pre in ["pub async fn ", "pub fn "] {
+            if let Some(rest) = t.strip_prefix(pre) {
+                let name: String = rest.chars().take_while(|c| c.is_alphanumeric() || *c == '_').collect();
+                if !name.is_empty() && !names.contains(&name) { names.push(name); }
+            }
+        }
+    }
+    names
+}
+
+/// Every public entry point of the three clients must be driven, or be known to send nothing: a twin the harness does not
+/// know is listed in the evidence (`not_driven`) and counted, so that it cannot go unnoticed.
+fn entry_point_audit(out: &mut Out) -> Vec<String> {
+    let mut missing = Vec::new();
+    for (kind, file) in [("blocking", "client.rs"), ("async", "async_client.rs"), ("ws", "websocket_client.rs")] {
+        for name in source_entry_points(file) {
+            let driven = APIS.contains(&name.as_str()) || DRIVEN_BY_OPS.contains(&name.as_str()) || (kind != "ws" && SLICE_APIS.contains(&name.as_str()));
+            if !driven && !NO_REQUEST.contains(&name.as_str()) {
+                out.count(&format!("emit.NOT_DRIVEN.{}.{}", kind, name));
+                missing.push(format!("{}::{}", kind, name));
+            }
+        }
+    }
+    out.extra.insert("not_driven".into(), json!(missing));
+    missing
+}
+
 fn gen_path(r: &mut Rng) -> String {
     let pool = ["/a", "/echo", "", "/", "/a/b/c", "/x~0y~1z", "/é/ü", "/a b", "/0", "/very/long/path/with/many/segments/0/1/2/3/4/5/6/7/8/9/10/11/12/13/14/15/16/17"];
     let mut p = r.pick(&pool).to_string();
@@ -60,6 +103,10 @@ fn gen_value(r: &mut Rng) -> Value {
 fn gen_ops(r: &mut Rng, n: usize, kind: &str) -> Vec<Op> {
     (0..n)
         .map(|_| match r.below(if kind == "async" { 14 } else { 13 }) {
+            8 if kind != "ws" => {
+                let n = *r.pick(&[0usize, 1, 2, 3, 7, 64, 513]);
+                Op::Api { api: *r.pick(SLICE_APIS), path: gen_path(r), value: json!((0..n).map(|i| (i as f64) * 0.5 - r.below(9) as f64).collect::<Vec<f64>>()) }
+            }
             8 | 9 | 10 | 11 | 12 => {
                 let api = *r.pick(APIS);
                 Op::Api { api, path: if api == "noreply" { "/__noreply".to_string() } else { gen_path(r) }, value: gen_value(r) }
@@ -188,7 +235,12 @@ fn expectations(op: &Op) -> Vec<Expect> {
         Op::Api { api, path, value } => {
             let q = path.as_bytes().to_vec();
             let e = |notify: bool, bf: u16, body: Vec<u8>| Expect { notify, qf: 1, bf, query: q.clone(), body, exact: None };
+            let floats = || -> Vec<f64> { value.as_array().map(|a| a.iter().filter_map(|x| x.as_f64()).collect()).unwrap_or_default() };
             match *api {
+                // the documented form of each twin: plain ⇒ `body_typed_slice`, aligned ⇒ `body_aligned_typed_slice` (padding sized
+                // for the payload's offset 48 + |query|); the BEVE payload itself is C08's, the frame around it is C01's
+                "call_typed_slice" | "call_typed_slice_with_timeout" => vec![e(false, 1, repe::Message::builder().query_str(path).body_typed_slice(&floats()).build().body)],
+                "call_typed_slice_aligned" | "call_typed_slice_aligned_with_timeout" => vec![e(false, 1, repe::Message::builder().query_str(path).body_aligned_typed_slice(&floats()).build().body)],
                 "call_typed_beve" | "call_typed_beve_with_timeout" => vec![e(false, 1, beve::to_vec(value).unwrap())],
                 "notify_typed_beve" => vec![e(true, 1, beve::to_vec(value).unwrap())],
                 "notify_typed_json" => vec![e(true, 2, serde_json::to_vec(value).unwrap())],
@@ -272,6 +324,15 @@ fn main() {
     } else {
         tokio::runtime::Builder::new_multi_thread().worker_threads(3).enable_all().build().unwrap()
     };
+    if std::env::args().any(|a| a == "--check-entry-points") {
+        let missing = entry_point_audit(&mut out);
+        println!("client entry points not driven by the emit family: {:?}", missing);
+        std::process::exit(if missing.is_empty() { 0 } else { 1 });
+    }
+    let missing = entry_point_audit(&mut out);
+    if !missing.is_empty() {
+        eprintln!("emit: public client entry points NOT DRIVEN (add them to APIS / SLICE_APIS / NO_REQUEST): {:?}", missing);
+    }
     let mut rng = Rng::new(args.seed);
     let n_ops = if args.thorough() { 1500 } else { 160 };
     let mut idx = 0usize;
@@ -328,6 +389,30 @@ fn main() {
                     (Op::Message { path }, "blocking") => blocking.as_ref().unwrap().call_message(path).map(|_| ()).map_err(|e| err_class(&e)),
                     (Op::Message { path }, "async") => rt.block_on(asyncc.as_ref().unwrap().call_message(path)).map(|_| ()).map_err(|e| err_class(&e)),
                     (Op::Message { path }, _) => rt.block_on(wsc.as_ref().unwrap().call_message(path)).map(|_| ()).map_err(|e| err_class(&e)),
+                    (Op::Api { api, path, value }, kind) if SLICE_APIS.contains(api) => {
+                        let xs: Vec<f64> = value.as_array().map(|a| a.iter().filter_map(|x| x.as_f64()).collect()).unwrap_or_default();
+                        let t = Duration::from_secs(8);
+                        let r: Result<Vec<f64>, repe::RepeError> = if kind == "blocking" {
+                            let c = blocking.as_ref().unwrap();
+                            match *api {
+                                "call_typed_slice" => c.call_typed_slice(path, &xs),
+                                "call_typed_slice_with_timeout" => c.call_typed_slice_with_timeout(path, &xs, t),
+                                "call_typed_slice_aligned" => c.call_typed_slice_aligned(path, &xs),
+                                _ => c.call_typed_slice_aligned_with_timeout(path, &xs, t),
+                            }
+                        } else {
+                            let c = asyncc.as_ref().expect("slice entry points are generated for the TCP clients only");
+                            rt.block_on(async {
+                                match *api {
+                                    "call_typed_slice" => c.call_typed_slice(path, &xs).await,
+                                    "call_typed_slice_with_timeout" => c.call_typed_slice_with_timeout(path, &xs, t).await,
+                                    "call_typed_slice_aligned" => c.call_typed_slice_aligned(path, &xs).await,
+                                    _ => c.call_typed_slice_aligned_with_timeout(path, &xs, t).await,
+                                }
+                            })
+                        };
+                        r.map(|_| ()).map_err(|e| err_class(&e))
+                    }
                     (Op::Api { api, path, value }, "blocking") => run_api!(blocking.as_ref().unwrap(), *api, path, value, []),
                     (Op::Api { api, path, value }, "async") => rt.block_on(async { run_api!(asyncc.as_ref().unwrap(), *api, path, value, [.await]) }),
                     (Op::Api { api, path, value }, _) => rt.block_on(async { run_api!(wsc.as_ref().unwrap(), *api, path, value, [.await]) }),
